@@ -73,6 +73,8 @@ fn families() -> Vec<Family> {
         Family { name: "cache-mix", rules: vec!["c(id)", "n(id)", "c(id)", "c(other)", "i1 / i0"], inputs: vec![in1.clone(), in2.clone()] },
         Family { name: "lists", rules: vec!["[c(id), c(i7)]", "c(id) == c(other)", "bad(id)", "if is_some(n(id)) then c(other) else c(id)"], inputs: vec![in1.clone(), in2.clone()] },
         Family { name: "two-cacheable", rules: vec!["c(id)", "c(other)"], inputs: vec![in1.clone(), in2.clone()] },
+        // a call nested in an earlier list item must complete before the later items start
+        Family { name: "nested-list", rules: vec!["[n(c(id)), n(other), c(i3)]"], inputs: vec![in1.clone(), in2.clone()] },
         // no user function at all: the input is reached through plain fields, through the `facts`
         // alias only, through a symbol-free constant (evaluated on alternating inputs in the
         // repetition leg)
